@@ -107,7 +107,8 @@ impl<'a> ast::Parenthesized<'a> {
     #[verifier::external_body]
     pub fn expr(self) -> (r: ast::Expr<'a>) requires self.wf(), tree_wf(self.0) ensures r.wf(), is_child_of(r.node(), self.0) { unimplemented!() }
     #[verifier::external_body]
-    pub fn pattern(self) -> (r: ast::Pattern<'a>) requires self.wf(), tree_wf(self.0) ensures r.wf(), is_child_of(r.node(), self.0) { unimplemented!() }
+    pub fn pattern(self) -> (r: ast::Pattern<'a>) requires self.wf(), tree_wf(self.0) ensures r.wf(), is_child_of(r.node(), self.0),
+        0 <= paren_body_idx_s(self.0) < self.0.children_s().len() && r.node() == self.0.children_s()[paren_body_idx_s(self.0)] { unimplemented!() }
 }
 impl<'a> ast::Expr<'a> {
     pub open spec fn is_literal_s(self) -> bool {
